@@ -27,7 +27,7 @@ def known_findings():
 if replay:
     p = run(replay["workload"], replay["preemption_rate"], None, single=replay["miri_seed"])
     sys.stdout.write(p.stdout)
-    bad = "VIOLATION" in p.stdout or "Undefined Behavior" in p.stderr or "Data race" in p.stderr
+    bad = "VIOLATION" in p.stdout or "Undefined Behavior" in p.stderr or "Data race" in p.stderr or "abnormal termination" in p.stderr or "deadlock" in p.stderr
     if bad:
         sys.stderr.write(p.stderr[-3000:])
         print(f"VIOLATION property=C20 replay={sys.argv[2]}")
@@ -72,7 +72,8 @@ for w in workloads:
                 samples.append({"workload": w, "preemption_rate": r, "execution": l})
             if verdict.startswith("VIOLATION"):
                 violations.append((w, r, l))
-        if "Undefined Behavior" in p.stderr or "Data race detected" in p.stderr:
+        if "Undefined Behavior" in p.stderr or "Data race detected" in p.stderr or "abnormal termination" in p.stderr or "deadlock" in p.stderr:
+            # (an abort or a deadlock of the interpreted program is a verdict about the program, not a harness error)
             ub.append((w, r, p.stderr[-2500:]))
         elif p.returncode != 0 and not any(v[0] == w and v[1] == r for v in violations):
             harness.append((w, r, p.stderr[-1500:]))
@@ -83,7 +84,7 @@ def find_seed(w, r):
     """Identify one failing miri seed by re-running seeds one at a time."""
     for s in range(nseeds):
         p = run(w, r, None, single=s)
-        if "VIOLATION" in p.stdout or "Undefined Behavior" in p.stderr or "Data race detected" in p.stderr:
+        if "VIOLATION" in p.stdout or "Undefined Behavior" in p.stderr or "Data race detected" in p.stderr or "abnormal termination" in p.stderr or "deadlock" in p.stderr:
             return s, p
     return None, None
 
